@@ -337,6 +337,10 @@ def run(ctx, rep):
     ok = feeders == [LV + "::<T, C>::run"] and all(c_.startswith(VD) for c_ in makers) and bool(makers) and all(c_.startswith(VD) for c_ in runners) and bool(runners)
     rep.check(ok, "R6.7", "R6.7|validators_only_via_dispatcher", "link validators are created and run only by the dispatcher, and fed only by their own receive loop", LV,
               "a link validator is fed by %s, created by %s, run by %s — packets can reach a validator without being routed by their identifier" % (feeders, makers, runners))
+    # ---------- R6.8 (shares R8.4|filter of C08) a run restricted to one link / FEE ID sees exactly that identifier's
+    # packets: the filter predicate is the exact identifier comparison
+    from . import c08
+    c08.filter_predicate_rules(ctx, ev, rep)
     # ---------- R6.5 sibling masks
     for p, want in (("fastpasta::words::its::layer_from_feeid", Bits(8, [("FEE", 12), ("FEE", 13), ("FEE", 14), 0, 0, 0, 0, 0])),
                     ("fastpasta::words::its::stave_number_from_feeid", Bits(8, [("FEE", i) for i in range(6)] + [0, 0]))):
